@@ -584,9 +584,71 @@ def session_leg(res, rng):
                 return
 
 
+def group_windows(sg):
+    length, typ, dgs, pad = frames.parse(sg.packet.assemble(77))
+    return [(g.addr[0], g.addr[0] + g.length) for g in dgs
+            if g.cmd in (10, 11, 12)]
+
+
+def longrun_leg(res, rseed, n, master):
+    """a master that lives long: one group stays allocated while another is
+    allocated again and again (every start draws a new window); however
+    many windows the master has handed out, the new one is disjoint from
+    those of the group that is still there"""
+    import shutil
+    import tempfile
+    from ebpfcat.ebpfcat import ParallelEtherCat
+    from ebpfcat.lock import FMMULock
+    tmpdir = tempfile.mkdtemp(prefix="vf-c18-")
+    rng = random.Random(rseed)
+    try:
+        if master == "parallel":
+            ec = ParallelEtherCat("vf")
+            ec.fmmu_lock_file = FMMULock(tmpdir + "/vf.fmmu")
+        else:
+            ec = SimpleEtherCat("vf")
+        case = dict(terms=[dict(pos=p_, isz=rng.randint(1, 30),
+                                osz=rng.randint(1, 30), rw=True, fmmu=True,
+                                aero=False) for p_ in (3, 4, 5)],
+                    master=master, allocations=n, rseed=rseed)
+        ts = build(case, ec)
+        sgs = [SyncGroup(ec, [Dev(PacketVar(t, SyncManager.IN, 0, "B"),
+                                  PacketVar(t, SyncManager.OUT, 0, "B"))])
+               for t in ts]
+        early = rng.randint(0, 5)
+        for _ in range(early):
+            sgs[2].allocate()
+        sgs[0].allocate()
+        live = group_windows(sgs[0])
+        res.case(case)
+        for k in range(n):
+            sg = sgs[1 + (k % 2 if k < 20 else 0)]
+            sg.allocate()
+            res.count("windows_drawn_by_a_long_lived_master")
+            if k + early + 1 >= 1023:
+                res.count("windows_drawn_beyond_the_1023rd")
+            for lo, hi in group_windows(sg):
+                for llo, lhi in live:
+                    if lo < lhi and llo < hi:
+                        res.violation(
+                            "unexplained:logical-windows-overlap-long-run",
+                            f"{master} master: window [{lo:#x}, {hi:#x}) of "
+                            f"allocation {k + early + 2} overlaps "
+                            f"[{llo:#x}, {lhi:#x}) of the first group, "
+                            f"which is still allocated", case=case)
+                        return
+        if master == "parallel":
+            ec.fmmu_lock_file.remove()
+    finally:
+        shutil.rmtree(tmpdir, ignore_errors=True)
+
+
 def run_shard(params):
     res = Result()
     rng = random.Random(params["seed"] * 100313 + params["shard"])
+    if params["shard"] in (0, 1):
+        longrun_leg(res, rng.getrandbits(32), 1100 if params["n"] <= 150 else 5000,
+                    ["parallel", "simple"][params["shard"]])
     for _ in range(6 if params["n"] <= 150 else 40):
         session_leg(res, rng)
     for i in range(params["n"]):
@@ -620,6 +682,10 @@ def finalize(res, tier, seed):
 
 def replay(v):
     res = Result()
+    if "master" in v["case"]:
+        longrun_leg(res, v["case"]["rseed"], v["case"]["allocations"],
+                    v["case"]["master"])
+        return res
     with kern.session() as sess:
         check_case(v["case"], res, sess)
     return res
